@@ -228,3 +228,20 @@ def gen_star(tape):
     used = {p: tuple(v) for p, v in expected.items() if v[1] > 0}
     return ts, mu, used, {"kind": "star", "samples": n_samples, "trees": n_trees, "parents": len(used),
                           "edges": ts.num_edges, "muts": ts.num_mutations, "ymax": ymax}
+
+
+def warm_up():
+    """Run every public method once on a tiny input in the parent process, so that lazily compiled numba
+    pieces (jitclass constructors, object-mode wrappers) are compiled before the workers are forked."""
+    import msprime
+
+    import tsdate
+
+    ts = msprime.sim_ancestry(3, ploidy=2, population_size=1.0, sequence_length=100, random_seed=11)
+    ts = msprime.sim_mutations(ts, rate=0.05, random_seed=12)
+    for phased in (True, False):
+        tsdate.variational_gamma(ts, mutation_rate=0.05, max_iterations=2, singletons_phased=phased)
+    for method in ("inside_outside", "maximization"):
+        for space in ("linear", "logarithmic"):
+            tsdate.date(ts, mutation_rate=0.05, method=method, population_size=1.0, probability_space=space)
+    tsdate.preprocess_ts(ts)
